@@ -127,19 +127,17 @@ func (x *Exec) step(st *State, in ssa.Instruction) {
 		vv := x.heapGet(st, vn)
 		ds := x.reg.heap[dn][1]
 		vs := x.reg.heap[vn][1]
-		x.heapSet(st, dn, sto(d, m, sto(sel(d, m, ds), k, tTrue)))
-		x.heapSet(st, vn, sto(vv, m, sto(sel(vv, m, vs), k, v)))
+		x.heapStoreAt(st, dn, m, sto(sel(d, m, ds), k, tTrue))
+		x.heapStoreAt(st, vn, m, sto(sel(vv, m, vs), k, v))
 	case *ssa.MakeMap:
 		r := x.newRef(st, "map")
 		st.nonnilSet(r.S)
 		mt := in.Type().Underlying().(*types.Map)
 		ks, es := x.reg.SortOf(mt.Key()), x.reg.SortOf(mt.Elem())
 		dn, vn := x.reg.MapArrays(ks, es)
-		d := x.heapGet(st, dn)
-		x.heapSet(st, dn, sto(d, r, mk(x.reg.heap[dn][1], "((as const (Array "+ks+" Bool)) false)")))
+		x.heapStoreAt(st, dn, r, mk(x.reg.heap[dn][1], "((as const (Array "+ks+" Bool)) false)"))
 		z := x.zero(st, mt.Elem())
-		vv := x.heapGet(st, vn)
-		x.heapSet(st, vn, sto(vv, r, mk(x.reg.heap[vn][1], "((as const (Array "+ks+" "+es+")) "+z.S+")")))
+		x.heapStoreAt(st, vn, r, mk(x.reg.heap[vn][1], "((as const (Array "+ks+" "+es+")) "+z.S+")"))
 		f.regs[in] = mkT("Int", r.S, in.Type())
 	case *ssa.MakeSlice:
 		n := x.term(st, x.eval(st, in.Len), in.Pos())
@@ -330,6 +328,22 @@ func (x *Exec) slice(st *State, in *ssa.Slice) Val {
 	}
 	x.oblige(st, "safety", "slice-bounds", And(Le(IntLit(0), lo), Le(lo, hi), Le(hi, n)), in.Pos())
 	if in.Low == nil && in.High == nil {
+		// whole small array (varargs): canonical form one(a[0]) ++ one(a[1]) ...
+		if pt, ok := in.X.Type().Underlying().(*types.Pointer); ok {
+			if at, ok := pt.Elem().Underlying().(*types.Array); ok && at.Len() >= 1 && at.Len() <= 4 && isSeq(base.Sort) {
+				e := seqElem(base.Sort)
+				var r *Term
+				for i := int64(0); i < at.Len(); i++ {
+					o := App(base.Sort, "one_"+e, App(e, "at_"+e, base, IntLit(i)))
+					if r == nil {
+						r = o
+					} else {
+						r = App(base.Sort, "cat_"+e, r, o)
+					}
+				}
+				return mkT(base.Sort, r.S, in.Type())
+			}
+		}
 		return mkT(base.Sort, base.S, in.Type())
 	}
 	if base.Sort == "Str" {
